@@ -21,7 +21,8 @@ class C15(PropBase):
             "all -o strings of length <= 2 over the key alphabet plus junk letters (quick: every ordered pair of the property's key letters, the rest sampled); row sequence parsed from the "
             "real Planes::print output: must be a permutation of the table's key set and monotone in the last recognised key among "
             "rows whose key is known; ascending addresses when no key is recognised; compared with the model's order. Non-trivial "
-            "= at least 3 rows with distinct known keys; distinct by (table, -o string).")
+            "= at least 3 rows with distinct known keys; distinct by (table, -o string). Plus the refreshes the real reader prints over streams of 36-60 frames "
+            "in which new aircraft appear on and around the sweep ticks (12th, 23rd, 34th frame): duplicate-free, growing, ordered, the last one complete.")
 
     def table(self, rng):
         addrs, pre, body = RC.rich_rows(rng, 10, base=0x3C0000)
@@ -46,6 +47,9 @@ class C15(PropBase):
         return addrs, pre, body + extra
 
     def explore(self, rep, run, rng, tier, driver_ok):
+        self.reader_refreshes(rep, run, core.rng_for(rep.seed + 15, "C15r"), tier)
+        if rep.violations:
+            return
         alpha = "saAvVNSWEdDcCxz"
         orders = [""] + list(alpha) + ["".join(p) for p in itertools.product(alpha, repeat=2)]
         if tier == "quick":
@@ -102,5 +106,62 @@ class C15(PropBase):
                 if len(set(known)) >= 3:
                     rep.nontriv((ti, o))
         rep.sample({"orders": orders[:20], "printed_example": printed[:6]})
+
+    def reader_refreshes(self, rep, run, rng, tier):
+        """the tables the real reader prints while it reads (refresh after every accepted frame): every refresh lists each aircraft
+        heard so far exactly once, in the requested order - whatever frame number an aircraft's first frame has (the expiry sweep
+        runs at the 12th, 23rd, 34th .. frame) and however the table grew.  One reader, one `Planes` for the whole stream."""
+        import re as _re
+        for si in range(4 if tier == "quick" else 40):
+            n = rng.randrange(36, 60)
+            order = rng.choice(["", "x", "a", "s", "A"])
+            # new aircraft appear at chosen frame numbers, in particular on and around the sweep ticks
+            newat = sorted(set([0, 1] + rng.sample([4, 10, 11, 12, 13, 22, 23, 24, 33, 34, 35], 5)))
+            addrs, lines, seen = [], [], []
+            for i in range(n):
+                if i in newat:
+                    addrs.append(0x3D0000 + 16 * si + len(addrs) * rng.choice([1, 3, 0x100]) + rng.randrange(3) * 0x10000)
+                    a = addrs[-1]
+                else:
+                    a = rng.choice(addrs)
+                lines.append(rng.choice([F.df11(5, a, 0), F.df4(0, 0, 0, F.ac13_q1(rng.randrange(40, 2000)), a),
+                                         F.df5(0, 0, 0, rng.randrange(8192), a)]))
+                if a not in seen:
+                    seen.append(a)
+            ops = ["reset", gen.cfg_op(show=1, update=-1, groups="", order=order, delete_after=600)] + gen.seg(lines) + ["dump"]
+            impl, so, _ = run.execute(ops, model=False)
+            rep.evaluations += n; rep.traces += 1
+            m = _re.search(r"@@SEG \d+ BEGIN\n(.*?)\n@@SEG \d+ END", so, _re.S)
+            if not m:
+                raise core.Broken("the reader printed nothing with the display on", so[-300:])
+            screens = m.group(1).split("\x1b[2J\x1b[H\x1b[3J")
+            tables = []
+            for sc in screens:
+                rows = [l for l in sc.split("\n") if _re.match(r"^[0-9A-F]{6} ", l)]
+                if rows or "ICAO" in sc:
+                    tables.append([int(r[:6], 16) for r in rows])
+            final = sorted(gen.parse_dump(impl))
+            # the last refresh must list exactly the final table, every refresh a duplicate-free list, in ascending address
+            # order when no key is given, that only ever grows
+            prev = []
+            for ti, t in enumerate(tables):
+                if len(set(t)) != len(t):
+                    self.fail(rep, f"refresh {ti} of the reader lists an aircraft twice: {[hex(x) for x in t]}", {"ops": ops, "refresh": ti})
+                    return
+                if order in ("", "x") and t != sorted(t):
+                    self.fail(rep, f"refresh {ti} of the reader (-o {order!r}) is not in ascending address order", {"ops": ops, "refresh": ti})
+                    return
+                if not set(prev) <= set(t):
+                    self.fail(rep, f"refresh {ti} of the reader no longer lists {[hex(x) for x in set(prev) - set(t)]} (nothing can have expired)", {"ops": ops, "refresh": ti})
+                    return
+                prev = t
+            if tables and sorted(tables[-1]) != final:
+                missing = sorted(set(final) - set(tables[-1]))
+                self.fail(rep, f"the last refresh of the reader lists {len(tables[-1])} aircraft, the table holds {len(final)}: "
+                               f"{[('%06X' % x) for x in missing]} tracked but not listed (-o {order!r}, {n} frames, first frames at {newat})",
+                          {"ops": ops, "missing": missing})
+                return
+            if len(tables) >= n - 2:
+                rep.nontriv(("reader", si))
 
 PROP = C15()
